@@ -203,10 +203,10 @@ def _co2(seed):
 def _model(seed):
     import pygaps
     from pgverif import models as GM
-    name = ["Langmuir", "Toth", "DSLangmuir", "Henry"][seed % 4]
+    name = ["Langmuir", "Toth", "DSLangmuir", "Henry", "Virial"][seed % 5]
     r = gen.rng(seed, "m")
     P = {"Langmuir": {"K": 1.2345678901234, "n_m": 5.0}, "Toth": {"K": 2.0000000123, "n_m": 4.0, "t": 0.8123456789}, "DSLangmuir": {"n_m1": 2.0, "K1": 0.5, "n_m2": 3.0, "K2": 6.000000001234},
-         "Henry": {"K": 0.7000000004321}}[name]  # (as many digits as a fit leaves)
+         "Henry": {"K": 0.7000000004321}, "Virial": {"K": 1.1000000001234, "A": 0.012, "B": 0.0011, "C": 0.00013}}[name]  # (as many digits as a fit leaves)
     m = GM.make_model(name, P, pressure_range=(0.01, 5.0), loading_range=(0.01, 4.0), rmse=0.01)
     return pygaps.ModelIsotherm(model=m, material="verif-c04-m", adsorbate="nitrogen", temperature=298.0, **gen.DEFAULT_UNITS)
 
@@ -719,6 +719,33 @@ def _run_history(case, ctx):
                 ctx.violation("%s/value-depends-on-history" % qname, "the value differs from the same call issued first on a fresh object", query=name, after_history=repr(got[1])[:200], fresh=repr(exp[1])[:200],
                               history=trail[-6:], source=source)
         ctx.count("outcomes", "%s/%s" % (qname, got[0] if got[0] == "ok" else type(got[1]).__name__))
+        if r.random() < 0.15 and hasattr(obj, "adsorbate"):
+            # a request that cannot be answered (another isotherm of the same adsorbate typed in at 5 K, asked for relative
+            # pressures) comes in between: the same query on the untouched object gives what it gave a moment ago
+            # (besides the query of this step, a read of the pressures in the other pressure mode - it needs the saturation pressure)
+            probe = (lambda o: o.pressure(pressure_mode="relative" if o.pressure_mode == "absolute" else "absolute", pressure_unit=None if o.pressure_mode == "absolute" else "bar")) if hasattr(obj, "data_raw") else None
+            probe_before = _outcome(probe, obj) if probe else None
+            try:
+                import pygaps
+                cold = pygaps.PointIsotherm(pressure=[0.1, 0.2, 0.3], loading=[1.0, 2.0, 3.0], branch="ads", material="verif-c04-cold", adsorbate=str(obj.adsorbate), temperature=5.0, **gen.DEFAULT_UNITS)
+                _outcome(lambda o: o.pressure(pressure_mode="relative"), cold)
+                _outcome(lambda o: o.loading(loading_basis="volume_liquid", loading_unit="cm3"), cold)
+            except Exception:
+                cold = None
+            if cold is not None and probe_before is not None:
+                probe_after = _outcome(probe, obj)
+                if probe_after[0] != probe_before[0] or (probe_before[0] == "ok" and not same_value(probe_before[1], probe_after[1])):
+                    ctx.violation("pressure/outcome-depends-on-history", "after an unanswerable request on another isotherm of the same adsorbate the pressures can no longer be read in the other pressure mode (or read differently)",
+                                  before=[probe_before[0], repr(probe_before[1])[:120]], after=[probe_after[0], repr(probe_after[1])[:120]], source=source)
+            if cold is not None:
+                again = _outcome(q, *args)
+                ctx.count("twin_comparisons", "same-query-after-an-unanswerable-request")
+                if again[0] != got[0] or (got[0] == "exc" and type(again[1]) is not type(got[1])):
+                    ctx.violation("%s/outcome-depends-on-history" % qname, "after an unanswerable request on another isotherm of the same adsorbate the same query ends differently", query=name,
+                                  before=[got[0], repr(got[1])[:160]], after=[again[0], repr(again[1])[:160]], source=source)
+                elif got[0] == "ok" and not same_value(got[1], again[1]):
+                    ctx.violation("%s/value-depends-on-history" % qname, "after an unanswerable request on another isotherm of the same adsorbate the same query gives another value", query=name, before=repr(got[1])[:200],
+                                  after=repr(again[1])[:200], source=source)
         prev = name
     if r.random() < 0.03:
         ctx.sample({"source": source, "history": trail})
